@@ -402,6 +402,55 @@ func checkC16(w *World, r *Report) {
 		}
 		return n
 	}
+	// a reader that fills locals and builds the struct in one literal at the end: the literal
+	// says which local is which field
+	fieldOfLocal := func(fd *ast.FuncDecl, ops []wireOp) []wireOp {
+		ren := map[string]string{}
+		ast.Inspect(fd.Body, func(n ast.Node) bool {
+			cl, ok := n.(*ast.CompositeLit)
+			if !ok || !isNamed(w.Info.TypeOf(cl), twigPath, "CompiledTemplate") {
+				return true
+			}
+			for _, el := range cl.Elts {
+				kv, ok := el.(*ast.KeyValueExpr)
+				if !ok {
+					continue
+				}
+				key, ok := kv.Key.(*ast.Ident)
+				if !ok {
+					continue
+				}
+				// Field: x   /   Field: T(x)
+				val := ast.Unparen(kv.Value)
+				if c, ok := val.(*ast.CallExpr); ok && len(c.Args) == 1 {
+					if tv, ok := w.Info.Types[c.Fun]; ok && tv.IsType() {
+						val = ast.Unparen(c.Args[0])
+					}
+				}
+				if id, ok := val.(*ast.Ident); ok {
+					ren[id.Name] = key.Name
+				}
+			}
+			return true
+		})
+		if len(ren) == 0 {
+			return ops
+		}
+		out := make([]wireOp, len(ops))
+		for i, o := range ops {
+			if strings.HasPrefix(o.field, "local:") {
+				if f, ok := ren[strings.TrimPrefix(o.field, "local:")]; ok {
+					o.field = f
+				}
+			} else if o.field == "" && o.local != "" {
+				if f, ok := ren[o.local]; ok {
+					o.field = f
+				}
+			}
+			out[i] = o
+		}
+		return out
+	}
 	var mainW, mainR *side
 	for _, fd := range w.sortedDecls() {
 		if fd.Body == nil {
@@ -414,7 +463,7 @@ func checkC16(w *World, r *Report) {
 			}
 		}
 		if w.wireCapable(fd, false, map[*ast.FuncDecl]bool{}) {
-			s := &side{fd, w.flatWire(fd, false, 0)}
+			s := &side{fd, fieldOfLocal(fd, w.flatWire(fd, false, 0))}
 			if fields(s.ops) > 0 && (mainR == nil || len(s.ops) > len(mainR.ops)) {
 				mainR = s
 			}
@@ -881,7 +930,31 @@ func checkFieldCorrespondence(w *World, r *Report) {
 					continue
 				}
 				key := kv.Key.(*ast.Ident).Name
-				sel, ok := kv.Value.(*ast.SelectorExpr)
+				valExpr := kv.Value
+				// a local that is a plain copy of a field (x := compiled.Source … source: x)
+				if id, isID := ast.Unparen(valExpr).(*ast.Ident); isID {
+					if obj := w.Info.Uses[id]; obj != nil {
+						var rhs ast.Expr
+						nDef := 0
+						ast.Inspect(fd.Body, func(m ast.Node) bool {
+							if as, ok := m.(*ast.AssignStmt); ok && len(as.Lhs) == len(as.Rhs) {
+								for i, l := range as.Lhs {
+									if lid, ok := l.(*ast.Ident); ok && (w.Info.Defs[lid] == obj || w.Info.Uses[lid] == obj) {
+										nDef++
+										rhs = as.Rhs[i]
+									}
+								}
+							}
+							return true
+						})
+						if nDef == 1 {
+							if _, isSel := ast.Unparen(rhs).(*ast.SelectorExpr); isSel {
+								valExpr = ast.Unparen(rhs)
+							}
+						}
+					}
+				}
+				sel, ok := valExpr.(*ast.SelectorExpr)
 				if !ok {
 					// not a plain field copy: if the value still mentions the counterpart
 					// struct, the field is transformed on its way through compile/load
